@@ -1,9 +1,9 @@
 SPECIFICATION GenSpec
 CONSTANTS SmallIds = {1} Widths = {} MaxTok = 1
   Texts <- CTexts HRs <- CHRs
-  MaxIn = 2 Kinds = {"h", "s"} MsgIds = {1} NextRVs <- CRVs Whats <- CWhats
-  MaxQ = 2 Hows = {"shut"} MaxSent = 2
-CONSTRAINT Bound
-VIEW Skel
+  MaxIn = 2 Kinds = {"h", "s", "c", "f", "l", "o"} MsgIds = {1} NextRVs <- CRVs Whats <- CWhats
+  MaxQ = 2 Hows = {"shut"} MaxSent = 2 Ops <- OpsQ
+CONSTRAINT BoundQ
+VIEW SkelQ
 ACTION_CONSTRAINT Emit
 CHECK_DEADLOCK FALSE
